@@ -448,31 +448,74 @@ func TestVerifE3HTTP(t *testing.T) {
 					continue
 				}
 				text := g.textBody(o)
+				if o.MaxBodySize < 100000 {
+					switch g.r.Intn(8) {
+					case 0, 1: // many short lines: around the message-count limit of the binary format
+						k := int((o.MaxBodySize-4)/5) + g.r.Intn(5) - 2
+						text = bytes.Repeat([]byte("a\n"), k)
+						if len(text) > 0 && g.r.Intn(2) == 0 {
+							text = text[:len(text)-1]
+						}
+					case 2: // one message padded with newlines up to / beyond max-body-size
+						text = append([]byte("m"), bytes.Repeat([]byte("\n"), int(o.MaxBodySize)+g.r.Intn(3)-2)...)
+					case 3: // no message at all
+						text = bytes.Repeat([]byte("\n"), g.r.Intn(4))
+					}
+				}
 				var blocks [][]byte
 				for _, l := range bytes.Split(text, []byte("\n")) {
 					if len(l) > 0 {
 						blocks = append(blocks, l)
 					}
 				}
-				hs, _ := httpOp(v, "POST", "/mpub", "topic="+twH+"", int64(len(text)), text, 1)
+				hs, hsnap := httpOp(v, "POST", "/mpub", "topic="+twH+"", int64(len(text)), text, 1)
 				lastHTTPt := lastHTTP
-				if len(blocks) == 0 || int64(len(text)) > o.MaxBodySize {
-					continue
-				}
+				// Exact acceptance of both formats, computed from the options alone (theorems mpub_text_exact,
+				// mpub_text_vs_tcp, mpub_tcp_vs_text of Nsq.Props.C10Char): text mode needs body <= max-body-size and
+				// every non-empty line <= max-msg-size; TCP MPUB of the lines needs 1 <= count <= (max-body-size-4)/5
+				// and the framed batch <= max-body-size. The divergent cases are checked, not skipped (audit B15).
+				textOK := int64(len(text)) <= o.MaxBodySize
 				batch := vfE3BE32(uint32(len(blocks)))
 				for _, b := range blocks {
+					textOK = textOK && int64(len(b)) <= o.MaxMsgSize
 					batch = append(append(batch, vfE3BE32(uint32(len(b)))...), b...)
 				}
-				if int64(len(batch)) > o.MaxBodySize {
+				tcpOK := len(blocks) >= 1 && int64(len(blocks)) <= (o.MaxBodySize-4)/5 && int64(len(batch)) <= o.MaxBodySize
+				for _, b := range blocks {
+					tcpOK = tcpOK && int64(len(b)) <= o.MaxMsgSize
+				}
+				hOK := hs == "200"
+				if hOK != textOK {
+					fail("ORACLE-FAIL key=mpub-text-limits req=%s what=text /mpub (%d bytes, %d non-empty lines, max-msg-size %d, max-body-size %d) answered %s; by the limits of the text format it must be %v", strings.ReplaceAll(lastHTTPt, " ", "|"), len(text), len(blocks), o.MaxMsgSize, o.MaxBodySize, hs, textOK)
+				}
+				if hOK {
+					var ms []string
+					for _, b := range blocks {
+						ms = append(ms, vfE3ShowBytes(b)+"~0")
+					}
+					if want, got := fmt.Sprintf("0:%d:%s:-", len(blocks), vfE3JoinOr(",", ms)), vfE3TopicView(hsnap, twH); got != want {
+						fail("ORACLE-FAIL key=mpub-text-limits req=%s what=text /mpub answered 200 and topic %s holds %s, expected exactly its non-empty lines %s", strings.ReplaceAll(lastHTTPt, " ", "|"), twH, got, want)
+					}
+				}
+				if int64(len(batch)) > 1<<20 {
 					continue
 				}
 				tcp := append(append([]byte("  V2MPUB "+twT+"\n"), vfE3BE32(uint32(len(batch)))...), batch...)
 				res, snap := ioOp(v, g.vfE3Gen, tcp)
-				hOK := hs == "200"
 				tOK := len(res.replies) >= 1 && res.replies[0] == "OK"
 				a, b := vfE3TopicView(snap, twH), vfE3TopicView(snap, twT)
-				if hOK != tOK || (hOK && a != b) {
-					fail("ORACLE-FAIL key=mpub-text-equiv req=%s what=text /mpub answered %s but TCP MPUB of its lines answered %v; queues %s vs %s", strings.ReplaceAll(lastHTTPt, " ", "|")+"||io|"+v.id+"|"+vfHex(tcp), hs, res.replies, a, b)
+				if tOK != tcpOK || (hOK && tOK && a != b) {
+					fail("ORACLE-FAIL key=mpub-text-equiv req=%s what=text /mpub answered %s (predicted %v), TCP MPUB of its %d lines answered %v (predicted %v); queues %s vs %s", strings.ReplaceAll(lastHTTPt, " ", "|")+"||io|"+v.id+"|"+vfHex(tcp), hs, textOK, len(blocks), res.replies, tcpOK, a, b)
+				}
+				switch {
+				case hOK && !tOK:
+					hist["twin:mpub-text-divergent:text-only"]++
+				case !hOK && tOK:
+					hist["twin:mpub-text-divergent:tcp-only"]++
+				case hOK && tOK:
+					hist["twin:mpub-text-both"]++
+				default:
+					hist["twin:mpub-text-neither"]++
 				}
 				hist["twin:mpub-text"]++
 			case 5, 6: // admin scenario on a small universe: cross-object effects, pause + publish + empty
